@@ -514,13 +514,17 @@ def rule_content_guards(ctx):
     ctx.ob('W.content', f, 'REAL first octet: bit 8 binary, bits 8-7 = 01 special, 00 decimal', got[:3] == ['128..255', '64..127', '0..63'],
            str(got), node=top[0])
     for var, lim in (('b', 2),):
-        gs = [x for x in walk_own(f.node) if isinstance(x, ast.If) and norm(x.test) == '%s > %d' % (var, lim) and raises_in(x.body)]
+        from sa import condeq
+        gs = condeq.raising_guards(f.node, '%s > %d' % (var, lim), raises_in, walk_own)
         ctx.ob('W.content', f, 'reserved REAL base refused', len(gs) == 1, '')
     # constructed-form refusal precedes the reassembly loop
     for q in (D + 'BitStringPayloadDecoder.valueDecoder', D + 'OctetStringPayloadDecoder.valueDecoder'):
         f = ctx.func(q)
         cfg = ctx.cfg(f)
-        g = [t for t in cfg.stmt_nodes() if t.kind == 'test' and norm(t.ast.test) == 'not self.supportConstructedForm' and raises_in(t.ast.body)]
+        from sa import condeq
+        g = [t for t in cfg.stmt_nodes() if t.kind == 'test' and (
+            (condeq.same(t.ast.test, 'not self.supportConstructedForm') == 1 and raises_in(t.ast.body)) or
+            (condeq.same(t.ast.test, 'not self.supportConstructedForm') == -1 and raises_in(t.ast.orelse)))]
         loops = [t for t in cfg.stmt_nodes() if t.kind == 'for' and isinstance(t.ast.iter, ast.Call) and norm(t.ast.iter.func) == 'decodeFun']
         ok = len(g) == 1 and bool(loops) and all(cfg.dominates(g[0], lp) for lp in loops)
         ctx.ob('W.content', f, 'constructed-form refusal dominates segment reassembly', ok, '')
@@ -531,5 +535,7 @@ def rule_content_guards(ctx):
         for meth in ('valueDecoder',) + (('indefLenValueDecoder',) if cls == 'ConstructedPayloadDecoderBase' else ()):
             f = ctx.func(D + cls + '.' + meth)
             first = [s for s in f.node.body if not (isinstance(s, ast.Expr) and isinstance(s.value, ast.Constant))][0]
-            ok = isinstance(first, ast.If) and norm(first.test) == 'tagSet[0].tagFormat != %s' % want and raises_in(first.body)
+            from sa import condeq
+            ok = isinstance(first, ast.If) and ((condeq.same(first.test, 'tagSet[0].tagFormat != %s' % want) == 1 and raises_in(first.body)) or
+                                                (condeq.same(first.test, 'tagSet[0].tagFormat != %s' % want) == -1 and raises_in(first.orelse)))
             ctx.ob('W.content', f, 'tag form checked first (%s)' % want.split('Format')[1], ok, norm(first.test) if isinstance(first, ast.If) else norm(first)[:40])
